@@ -125,6 +125,8 @@ type Enc struct {
 	curLemma    string
 	curCallArgs []ssa.Value
 	assertDone  map[*AssertAt]bool
+	curBindings []Val // bindings of the closure whose contract is being applied
+	spawning    bool  // the contract is applied for a go statement
 	protected   map[*loopInfo][]*ssa.Range
 	lemmasUsed  map[string]bool
 	top         *frame
